@@ -24,9 +24,8 @@ CHECKS = {
              "a worker with a successor can always step. SYSTEM level for --dist load without worker failure (Progress.v, Termination.v), every configuration and schedule: no stand-off "
              "(some component can always make a useful move while the session has not ended) and TERMINATION (an explicit measure decreases with every useful step; a maximal run has ended). "
              "For load ALSO WITH arbitrary worker crashes (CrashProgress.v, CrashTermination.v): no stand-off for any restart budget, re-queueing, differing collections; termination for every finite budget. "
-             "Scope family and each without failures: no stand-off and termination (ProgressScope.v, TerminationScope.v, ProgressEach.v, TerminationEach.v); each WITH crashes when collections agree: no stand-off (ProgressEachCrash.v); "
-             "worksteal: no stand-off, termination up to the price of withdrawal requests (ProgressSteal.v, TerminationSteal.v). Partial: the remaining mode/failure combinations are searched by the stuck-state monitor and the worker-level race search, not proved; "
-             "the each-mode stand-off with a disagreeing replacement is a recorded finding.", design="5/C02", technique=TECH),
+             "Without failures ALL modes: no stand-off and termination (Progress*.v, Termination*.v; worksteal incl. a bound of 8*tests+1 on the withdrawal requests ever issued). WITH arbitrary crashes: no stand-off for load, worksteal, "
+             "the scope family (any collections, any budget) and each (when collections agree; otherwise the recorded finding); termination with crashes for load. Partial: a termination measure with failures for the other modes.", design="5/C02", technique=TECH),
  "C03": dict(text=SYS + "Proved (all states/events): one death notice yields at most one crash report, no other event yields one; the crash item is the head of the dead node's book / first "
              "undone test, the rest returns to the pool once, finished units are not re-queued. SYSTEM level for --dist load with arbitrary crashes (CrashTheorems.v, CrashTokens.v): every crash report names the test the dead worker was executing or "
              "about to start; without a re-queueing plugin no test is ever started twice; pool ++ all workers' holdings ++ crashed tests is a permutation of the collection.", design="5/C03", technique=TECH),
